@@ -32,8 +32,9 @@ from collections import Counter
 
 VERIF = Path(__file__).resolve().parent.parent
 WORK = VERIF / ".work"
-EVIDENCE = VERIF / "evidence"
-REPLAYS = VERIF / "replays"
+# experiments against scratch copies of the repository redirect the outputs (tools/check_at.sh)
+EVIDENCE = Path(os.environ["VERIF_OUT"]) / "evidence" if os.environ.get("VERIF_OUT") else VERIF / "evidence"
+REPLAYS = Path(os.environ["VERIF_OUT"]) / "replays" if os.environ.get("VERIF_OUT") else VERIF / "replays"
 KNOWN_FILE = VERIF / "known_findings.json"
 
 
@@ -389,13 +390,18 @@ def run_property(mod_name, tier, seed, replay=None):
 
     rc = 0
     REPLAYS.joinpath(pid).mkdir(parents=True, exist_ok=True)
+    EVIDENCE.mkdir(parents=True, exist_ok=True)
     for bucket, spec, msg, count in violations_out:
         h = hashlib.sha256(bucket.encode()).hexdigest()[:10]
         path = REPLAYS / pid / f"{h}.json"
         path.write_text(json.dumps({"bucket": bucket, "message": msg, "count": count, "spec": spec},
                                    indent=1, default=str))
         print(f"violation bucket={bucket} count={count}: {msg[:300]}")
-        print(f"VIOLATION property={pid} replay={path.relative_to(VERIF)}")
+        try:
+            shown = path.relative_to(VERIF)
+        except ValueError:
+            shown = path
+        print(f"VIOLATION property={pid} replay={shown}")
         rc = 1
     for line in known_lines:
         print(line)
